@@ -165,19 +165,19 @@ Qed.
 
 Lemma WFC_perm (c c' : cmap) : Permutation c c' -> WFC c -> WFC c'.
 Proof.
-  intros Hp [Hw H]. split; [apply (WF_perm _ _ Hp Hw)|]. intros k v kd d H1 H2.
-  apply (H k v kd d); apply (Permutation_in _ (Permutation_sym Hp)); assumption.
+  intros Hp [Hw H]. split; [apply (WF_perm _ _ Hp Hw)|]. intros k v kd d H1 Hlv H2.
+  apply (H k v kd d); [apply (Permutation_in _ (Permutation_sym Hp)); assumption|exact Hlv|apply (Permutation_in _ (Permutation_sym Hp)); assumption].
 Qed.
 
 Lemma upd_spec_perm i (c c' : cmap) vw upd : Permutation c c' -> upd_spec i c vw upd -> upd_spec i c' vw upd.
 Proof.
-  intros Hp [U1 U2 U3 U4]. pose proof (Permutation_sym Hp) as Hp'. split.
+  intros Hp [U1 U2 U2d U3 U4]. pose proof (Permutation_sym Hp) as Hp'. split.
   - exact U1.
   - intros k cv Hin. apply U2. apply (Permutation_in _ Hp'). exact Hin.
-  - intros k v Hl. destruct (U3 _ _ Hl) as [Hin|(H1 & H2 & H3 & H4 & H5 & kc & cv & H6 & H7)].
+  - intros k cv Hin. apply U2d. apply (Permutation_in _ Hp'). exact Hin.
+  - intros k v Hl. destruct (U3 _ _ Hl) as [Hin|(H2 & H3 & H5 & kc & cv & H6 & H7)].
     + left. apply (Permutation_in _ Hp). exact Hin.
-    + right. split; [intros Hk; apply H1; apply (Permutation_in _ (Permutation_map fst Hp')); exact Hk|].
-      repeat (split; [assumption|]). exists kc, cv. split; [apply (Permutation_in _ Hp); exact H6|exact H7].
+    + right. repeat (split; [assumption|]). exists kc, cv. split; [apply (Permutation_in _ Hp); exact H6|exact H7].
   - intros k kc cv Hk Hin. apply U4; [exact Hk|apply (Permutation_in _ Hp'); exact Hin].
 Qed.
 
@@ -187,47 +187,50 @@ Proof. intros H1 H2 H3. apply covered_spec. exists t, e. auto. Qed.
 
 Lemma upd_WF i c vw upd : WFC c -> upd_spec i c vw upd -> WF upd.
 Proof.
-  intros [[Hn Hk] Hwf] [U1 U2 U3 U4]. split; [exact U1|]. intros k v Hin. apply (in_lookup _ _ _ U1) in Hin.
-  destruct (U3 _ _ Hin) as [H|(H1 & H2 & H3 & H4 & H5 & kc & cv & H6 & H7 & H8)]; [apply Hk; exact H|].
+  intros [[Hn Hk] Hwf] [U1 U2 U2d U3 U4]. split; [exact U1|]. intros k v Hin. apply (in_lookup _ _ _ U1) in Hin.
+  destruct (U3 _ _ Hin) as [H|(H2 & H3 & H5 & kc & cv & H6 & H7 & H8)]; [apply Hk; exact H|].
   split; [auto|]. apply (Below_proper _ _ H8). destruct (Hk _ _ H6) as [_ Hp]. apply proper_ne in Hp. tauto.
 Qed.
 
 Lemma upd_live i c vw upd k v : upd_spec i c vw upd -> lookup k upd = Some v -> pv_deleted v = false -> In (k, v) c.
-Proof. intros [U1 U2 U3 U4] Hl Hd. destruct (U3 _ _ Hl) as [H|(_ & _ & H & _)]; [exact H|congruence]. Qed.
+Proof. intros [U1 U2 U2d U3 U4] Hl Hd. destruct (U3 _ _ Hl) as [H|(_ & H & _)]; [exact H|congruence]. Qed.
 
 Lemma upd_tomb i c vw upd t e : upd_spec i c vw upd -> lookup t upd = Some e -> pv_deleted e = true ->
   exists kc cv, In (kc, cv) c /\ pv_deleted cv = true /\ (t = kc \/ Below t kc).
 Proof.
-  intros [U1 U2 U3 U4] Hl Hd. destruct (U3 _ _ Hl) as [H|(_ & _ & _ & _ & _ & kc & cv & H6 & H7 & H8)].
+  intros [U1 U2 U2d U3 U4] Hl Hd. destruct (U3 _ _ Hl) as [H|(_ & _ & _ & kc & cv & H6 & H7 & H8)].
   - exists t, e. auto.
   - exists kc, cv. auto.
 Qed.
 
 (* nothing of a well-formed change lies beneath a tombstone of the updated values *)
-Lemma upd_not_below i c vw upd k v t e p :
-  WFC c -> upd_spec i c vw upd -> In (k, v) c -> lookup t upd = Some e -> pv_deleted e = true ->
-  proper t = true -> (p = k \/ Below p k) -> is_path_below k t = true -> False.
+Lemma upd_not_below i c vw upd k v t e :
+  WFC c -> upd_spec i c vw upd -> In (k, v) c -> pv_deleted v = false -> lookup t upd = Some e -> pv_deleted e = true ->
+  proper t = true -> is_path_below k t = true -> False.
 Proof.
-  intros Hc Hu Hin Hl Hd Hp _ Hb. apply (below_spec _ _ Hp) in Hb.
+  intros Hc Hu Hin Hlv Hl Hd Hp Hb. apply (below_spec _ _ Hp) in Hb.
   destruct (upd_tomb _ _ _ _ _ _ Hu Hl Hd) as (kc & cv & H1 & H2 & [->|H3]).
-  - exact (proj2 Hc _ _ _ _ Hin H1 H2 Hb).
-  - exact (proj2 Hc _ _ _ _ Hin H1 H2 (Below_trans _ _ _ Hb H3)).
+  - exact (proj2 Hc _ _ _ _ Hin Hlv H1 H2 Hb).
+  - exact (proj2 Hc _ _ _ _ Hin Hlv H1 H2 (Below_trans _ _ _ Hb H3)).
 Qed.
 
-Lemma upd_ch_uncovered i c vw upd k v : WFC c -> upd_spec i c vw upd -> In (k, v) c -> covered upd k = false.
+Lemma upd_ch_uncovered i c vw upd k v :
+  WFC c -> upd_spec i c vw upd -> In (k, v) c -> pv_deleted v = false -> covered upd k = false.
 Proof.
-  intros Hc Hu Hin. destruct (covered upd k) eqn:E; [|reflexivity]. exfalso. apply covered_spec in E.
+  intros Hc Hu Hin Hlv. destruct (covered upd k) eqn:E; [|reflexivity]. exfalso. apply covered_spec in E.
   destruct E as (t & e & Ht & Hd & Hb). pose proof (upd_WF _ _ _ _ Hc Hu) as Hw.
-  apply (upd_not_below i c vw upd k v t e k Hc Hu Hin (in_lookup _ _ _ (proj1 Hw) Ht) Hd (proj2 (proj2 Hw _ _ Ht)) (or_introl eq_refl) Hb).
+  apply (upd_not_below i c vw upd k v t e Hc Hu Hin Hlv (in_lookup _ _ _ (proj1 Hw) Ht) Hd (proj2 (proj2 Hw _ _ Ht)) Hb).
 Qed.
 
 (* two runs of AddDeleteChildren over the same change (any two orders) hold the same keys, the same live values and
    tombstones at the same keys *)
 Lemma upd_none_transfer i c vw u1 u2 k : upd_spec i c vw u1 -> upd_spec i c vw u2 -> lookup k u1 = None -> lookup k u2 = None.
 Proof.
-  intros [A1 A2 A3 A4] [B1 B2 B3 B4] H. destruct (lookup k u2) as [v|] eqn:E; [|reflexivity]. exfalso.
-  destruct (B3 _ _ E) as [Hin|(_ & _ & _ & _ & H5 & kc & cv & H6 & H7 & H8)].
-  - rewrite (A2 _ _ Hin) in H. discriminate.
+  intros [A1 A2 A2d A3 A4] [B1 B2 B2d B3 B4] H. destruct (lookup k u2) as [v|] eqn:E; [|reflexivity]. exfalso.
+  destruct (B3 _ _ E) as [Hin|(_ & _ & H5 & kc & cv & H6 & H7 & H8)].
+  - destruct (pv_deleted v) eqn:Ed.
+    + destruct (A2d _ _ Hin Ed) as (v' & Hv' & _). congruence.
+    + rewrite (A2 _ _ Hin Ed) in H. discriminate.
   - exact (A4 _ _ _ H5 H6 H7 H8 H).
 Qed.
 
@@ -236,7 +239,7 @@ Lemma upd_tomb_transfer i c vw u1 u2 t e : upd_spec i c vw u1 -> upd_spec i c vw
 Proof.
   intros Hu1 Hu2 Hl Hd. destruct (lookup t u2) as [e'|] eqn:E.
   - exists e'. split; [reflexivity|]. destruct (pv_deleted e') eqn:Ed; [reflexivity|]. exfalso.
-    pose proof (upd_live _ _ _ _ _ _ Hu2 E Ed) as Hin. destruct Hu1 as [A1 A2 A3 A4]. rewrite (A2 _ _ Hin) in Hl.
+    pose proof (upd_live _ _ _ _ _ _ Hu2 E Ed) as Hin. destruct Hu1 as [A1 A2 A2d A3 A4]. rewrite (A2 _ _ Hin Ed) in Hl.
     injection Hl as <-. congruence.
   - exfalso. rewrite (upd_none_transfer _ _ _ _ _ _ Hu2 Hu1 E) in Hl. discriminate.
 Qed.
@@ -279,9 +282,9 @@ Section Apply.
     pose proof (upd_WF _ _ _ _ Hch Hu') as Hw.
     intros k v a e H1 H2 H3 H4. apply (Permutation_in _ Hl) in H1. apply (Permutation_in _ Hl) in H3.
     destruct (is_path_below k a) eqn:E; [|reflexivity]. exfalso.
-    apply (upd_not_below i ch vw upd' k v a e k Hch Hu'
-             (upd_live _ _ _ _ _ _ Hu' (in_lookup _ _ _ (proj1 Hw) H1) H2) (in_lookup _ _ _ (proj1 Hw) H3) H4
-             (proj2 (proj2 Hw _ _ H3)) (or_introl eq_refl) E).
+    apply (upd_not_below i ch vw upd' k v a e Hch Hu'
+             (upd_live _ _ _ _ _ _ Hu' (in_lookup _ _ _ (proj1 Hw) H1) H2) H2 (in_lookup _ _ _ (proj1 Hw) H3) H4
+             (proj2 (proj2 Hw _ _ H3)) E).
   Qed.
 
   Lemma Xc_WF : WF (act_fold l (overlay inl m)).
@@ -305,11 +308,11 @@ Section Apply.
   Lemma ch_live_Xc p v : In (p, v) ch -> pv_deleted v = false ->
     lookup p (act_fold l (overlay inl m)) = Some v /\ covered (act_fold l (overlay inl m)) p = false.
   Proof.
-    intros Hin Hd. pose proof (ui_ch _ _ _ _ _ Hu' _ _ Hin) as Hp. split; [rewrite Xc_lookup, Hp; reflexivity|].
+    intros Hin Hd. pose proof (ui_ch _ _ _ _ _ Hu' _ _ Hin Hd) as Hp. split; [rewrite Xc_lookup, Hp; reflexivity|].
     destruct (covered _ p) eqn:E; [|reflexivity]. exfalso. apply covered_spec in E. destruct E as (t & e & Ht & Hde & Hb).
     pose proof (proj2 (proj2 Xc_WF _ _ Ht)) as Hpt. apply (in_lookup _ _ _ (proj1 Xc_WF)) in Ht. rewrite Xc_lookup in Ht.
     destruct (lookup t upd') as [e0|] eqn:E0.
-    - injection Ht as ->. exact (upd_not_below i ch vw upd' p v t e p Hch Hu' Hin E0 Hde Hpt (or_introl eq_refl) Hb).
+    - injection Ht as ->. exact (upd_not_below i ch vw upd' p v t e Hch Hu' Hin Hd E0 Hde Hpt Hb).
     - destruct (lookup t (overlay inl m)) as [e1|]; [|discriminate].
       destruct (pv_deleted e1 && dropb upd' t) eqn:Ec; [discriminate|]. injection Ht as ->. rewrite Hde in Ec. cbn in Ec.
       assert (dropb upd' t = true); [|congruence]. unfold dropb. apply existsb_exists. exists (p, v). cbn.
@@ -337,7 +340,7 @@ Section Apply.
               destruct (Hnd t e (in_lookup _ _ _ (proj1 Hwu) Ht) Hde Hct) as [_ Hx]. congruence.
             + destruct (Hnd p v' E Ed Ec) as [Hx _]. congruence.
           - apply (Hnu (pv_val v')). exists v'. split; [exact E|]. split; [exact Ed|]. split; [reflexivity|].
-            apply (upd_ch_uncovered i ch vw upd p v' Hch Hu). apply (upd_live _ _ _ _ _ _ Hu E Ed). }
+            apply (upd_ch_uncovered i ch vw upd p v' Hch Hu); [apply (upd_live _ _ _ _ _ _ Hu E Ed)|exact Ed]. }
         pose proof (upd_none_transfer _ _ _ _ _ _ Hu Hu' Hup) as Hup'.
         exists v. split; [rewrite Xc_lookup, Hup', H1, H2; reflexivity|]. split; [exact H2|]. split; [exact H3|].
         destruct (covered (act_fold l (overlay inl m)) p) eqn:E; [|reflexivity]. exfalso. apply covered_spec in E. destruct E as (t & e & Ht & Hde & Hb).
@@ -357,8 +360,8 @@ Section Apply.
           rewrite (cov_intro _ t e p (lookup_in _ _ _ E1) Hde Hb) in H4. discriminate.
     - intros (v & H1 & H2 & H3 & H4). rewrite Xc_lookup in H1. destruct (lookup p upd') as [v0|] eqn:E0.
       + injection H1 as ->. left. pose proof (upd_live _ _ _ _ _ _ Hu' E0 H2) as Hin. exists v.
-        split; [apply (ui_ch _ _ _ _ _ Hu); exact Hin|]. split; [exact H2|]. split; [exact H3|].
-        apply (upd_ch_uncovered i ch vw upd p v Hch Hu Hin).
+        split; [apply (ui_ch _ _ _ _ _ Hu _ _ Hin H2)|]. split; [exact H2|]. split; [exact H3|].
+        apply (upd_ch_uncovered i ch vw upd p v Hch Hu Hin H2).
       + right. pose proof (upd_none_transfer _ _ _ _ _ _ Hu' Hu E0) as Hup.
         destruct (lookup p (overlay inl m)) as [e1|] eqn:E1; [|discriminate].
         destruct (pv_deleted e1 && dropb upd' p); [discriminate|]. injection H1 as ->. split; [|split].
@@ -383,12 +386,12 @@ Section Apply.
     destruct (pv_index v =? pv_index e) eqn:Ei; [|exists v; split; [reflexivity|apply same_content_refl]].
     exists e. split; [reflexivity|]. apply N.eqb_eq in Ei. rewrite Xc_lookup in Hk.
     destruct (lookup k upd') as [v0|] eqn:E0.
-    - injection Hk as ->. destruct (ui_cases _ _ _ _ _ Hu' _ _ E0) as [Hin|(_ & _ & _ & _ & _ & kc & cv & H6 & H7 & H8)].
+    - injection Hk as ->. destruct (ui_cases _ _ _ _ _ Hu' _ _ E0) as [Hin|(_ & _ & _ & kc & cv & H6 & H7 & H8)].
       + apply (idx_compat_spec m ch k e v Hic (lookup_in _ _ _ Em)); [|auto].
         apply in_lookup; [apply Hch|exact Hin].
-      + exfalso. pose proof (ui_ch _ _ _ _ _ Hu' _ _ H6) as Hkc.
-        assert (Hx : lookup kc (act_fold l (overlay inl m)) = Some cv) by (rewrite Xc_lookup, Hkc; reflexivity).
-        rewrite (cov_intro _ kc cv k (lookup_in _ _ _ Hx) H7) in Hc; [discriminate|].
+      + exfalso. destruct (ui_del _ _ _ _ _ Hu' _ _ H6 H7) as (tv & Hkc & Htd & _).
+        assert (Hx : lookup kc (act_fold l (overlay inl m)) = Some tv) by (rewrite Xc_lookup, Hkc; reflexivity).
+        rewrite (cov_intro _ kc tv k (lookup_in _ _ _ Hx) Htd) in Hc; [discriminate|].
         apply below_spec; [apply (proj2 (proj1 Hch) _ _ H6)|exact H8].
     - rewrite (va_m _ _ Em) in Hk. destruct (pv_deleted e && dropb upd' k); [discriminate|]. injection Hk as <-.
       apply same_content_refl.
